@@ -727,7 +727,7 @@ def model_check(ck: Check, pid: str, tier: str) -> None:
         # Redis-like consumer; the pinned algorithm does not (that counter-example is the defect the trace checks found)
         for cfg2, invs in (("MC_Runner_repaired_inmem.cfg", "all"), ("MC_Runner_repaired_inmem_nolimit.cfg", "all"),
                            ("MC_Runner_repaired_rabbit.cfg", "all"), ("MC_Runner_repaired_big.cfg", "all"), ("MC_Runner_repaired_late.cfg", "all"),
-                           ("MC_Runner_repaired_2q.cfg", "all"), ("MC_Runner_repaired_2q_tl1.cfg", "all"), ("MC_Runner_repaired_3q.cfg", "all"),
+                           ("MC_Runner_repaired_2q.cfg", "all"), ("MC_Runner_repaired_wait.cfg", "all"), ("MC_Runner_repaired_2q_tl1.cfg", "all"), ("MC_Runner_repaired_3q.cfg", "all"),
                            ("MC_Runner_repaired_2q_rabbit.cfg", "all"),
                            ("MC_Runner_redis_other.cfg", "all but AtReturn"), ("MC_Runner_redis_other_ml.cfg", "all but AtReturn")):
             r2 = tlc.run_tlc("Runner", cfg2, timeout=900)
